@@ -177,3 +177,120 @@ def gen_reservations(rng, m, n_max=3, ends_only=True, p_local=0.5):
                              xys[0] if local else None))
     rng.shuffle(cons)
     return cons
+
+
+# ------------------------------------------------------- faulty machines
+VEC = [(1, 0), (1, 1), (0, 1), (-1, 0), (-1, -1), (0, -1)]
+FAULT_CLASSES = ["none", "sparse", "dense", "walls", "oneway", "deadchips",
+                 "mesh", "mesh_faulty", "thin", "tiny"]
+
+
+def neighbour(w, h, x, y, l):
+    dx, dy = VEC[l]
+    return (x + dx) % w, (y + dy) % h
+
+
+def wrap_links(w, h):
+    """every (x, y, link) whose hop crosses the edge of the w x h array"""
+    out = []
+    for x in range(w):
+        for y in range(h):
+            for l, (dx, dy) in enumerate(VEC):
+                if not (0 <= x + dx < w and 0 <= y + dy < h):
+                    out.append((x, y, l))
+    return out
+
+
+def gen_faults(rng, cls, max_side=12):
+    """-> dict(w, h, dead_chips, dead_links) for the named fault class"""
+    if cls == "thin":
+        n = rng.randint(1, max_side)
+        w, h = rng.choice([(1, n), (n, 1), (2, n), (n, 2)])
+    elif cls == "tiny":
+        w, h = rng.choice([(1, 1), (1, 2), (2, 1), (2, 2), (3, 1), (2, 3)])
+    else:
+        w, h = rng.randint(2, max_side), rng.randint(2, max_side)
+    dead_links, dead_chips = set(), set()
+
+    def kill(x, y, l, both=True):
+        dead_links.add((x, y, l))
+        if both:
+            nx, ny = neighbour(w, h, x, y, l)
+            dead_links.add((nx, ny, (l + 3) % 6))
+    n_links = w * h * 6
+    if cls in ("mesh", "mesh_faulty"):
+        dead_links.update(wrap_links(w, h))
+    if cls in ("sparse", "mesh_faulty", "thin", "tiny"):
+        for _ in range(rng.randint(0, max(1, n_links // 40))):
+            kill(rng.randrange(w), rng.randrange(h), rng.randrange(6),
+                 rng.random() < .8)
+    if cls == "dense":
+        frac = rng.uniform(0.10, 0.40)
+        for _ in range(int(n_links * frac / 2)):
+            kill(rng.randrange(w), rng.randrange(h), rng.randrange(6),
+                 rng.random() < .85)
+    if cls == "oneway":
+        for _ in range(rng.randint(1, max(1, n_links // 6))):
+            kill(rng.randrange(w), rng.randrange(h), rng.randrange(6), False)
+    if cls == "walls":
+        for _ in range(rng.randint(1, 3)):
+            if rng.random() < .5:       # vertical wall between x0 and x0+1
+                x0 = rng.randrange(w)
+                gap = rng.randrange(h)
+                for y in range(h):
+                    if y != gap or rng.random() < .15:
+                        for l in (0, 1, 5):
+                            kill(x0, y, l)
+            else:
+                y0 = rng.randrange(h)
+                gap = rng.randrange(w)
+                for x in range(w):
+                    if x != gap or rng.random() < .15:
+                        for l in (2, 1, 3):
+                            kill(x, y0, l)
+    if cls in ("deadchips", "dense", "mesh_faulty") and w * h > 2:
+        for _ in range(rng.randint(1 if cls == "deadchips" else 0,
+                                   max(1, w * h // 8))):
+            dead_chips.add((rng.randrange(w), rng.randrange(h)))
+        if cls == "deadchips":
+            for _ in range(rng.randint(0, 4)):
+                kill(rng.randrange(w), rng.randrange(h), rng.randrange(6))
+    if len(dead_chips) >= w * h:
+        dead_chips = set(list(dead_chips)[:w * h - 1])
+    return dict(w=w, h=h, dead_chips=sorted(dead_chips),
+                dead_links=sorted(dead_links))
+
+
+def strongly_connected(m):
+    """Are all live chips mutually reachable over live directed links (a hop
+    needs a live source chip, a live link in that direction and a live
+    destination chip)?"""
+    w, h = m["w"], m["h"]
+    dead = {tuple(c) for c in m.get("dead_chips", [])}
+    dl = {tuple(l) for l in m.get("dead_links", [])}
+    chips = [(x, y) for x in range(w) for y in range(h) if (x, y) not in dead]
+    if len(chips) <= 1:
+        return True
+    fwd = {c: [] for c in chips}
+    bwd = {c: [] for c in chips}
+    for (x, y) in chips:
+        for l in range(6):
+            if (x, y, l) in dl:
+                continue
+            n = neighbour(w, h, x, y, l)
+            if n in dead or n == (x, y):
+                continue
+            fwd[(x, y)].append(n)
+            bwd[n].append((x, y))
+    for adj in (fwd, bwd):
+        seen = {chips[0]}
+        stack = [chips[0]]
+        while stack:
+            c = stack.pop()
+            for n in adj[c]:
+                if n not in seen:
+                    seen.add(n)
+                    stack.append(n)
+        if len(seen) != len(chips):
+            return False
+    return True
